@@ -478,6 +478,108 @@ def check_write_clones(ctx, F, wq, ws):
         ctx.bad('R4', role, SC, 'the two write_bit bodies differ: ' + dageq.diff(fq, fs), key=key, loc=rules.loc(ws))
 
 
+def _is_bits_of_n(t):
+    """the number of bits of the symbol type, in the spellings the code uses"""
+    t = effects.strip_uid(t)
+    if not (isinstance(t, tuple) and t):
+        return False
+    if t[0] == 'call' and t[2]:
+        a = effects.strip_uid(t[2][0])
+        nm = str(t[1])
+        if nm.endswith('count_ones') and (a[:2] == ('k', 'max_value') or (a[0] == 'call' and str(a[1]).endswith('max_value'))):
+            return True
+        if nm.endswith('count_zeros') and (a[:2] == ('k', 'zero') or (a[0] == 'call' and str(a[1]).endswith('Zero::zero'))):
+            return True
+    return 'BITS' in sym.show(t) and t[0] in ('const', 'k', 'assoc')
+
+
+def check_exp_golomb_agreement(ctx, F):
+    """Writer and reader of the Exp-Golomb code agree on the longest code word.  The writer emits, for the maximum of the integer
+    type, as many leading zeros as the type has bits (the branch where `symbol + 1` wraps to zero).  So (A) the reader has an
+    accepting path on which the counted run of leading zeros equals that number, and (B) every accepting path goes on to read
+    as many bits as it counted zeros (the writer always emits them), unless the count is decided to be zero."""
+    EG = 'symbol::exp_golomb::ExpGolomb'
+    enc = [b for b in F.bodies if b.promoted is None and b.name == 'encode_symbol_prefix' and EG in b.defpath and b.dk == 'AssocFn']
+    dec = [b for b in F.bodies if b.promoted is None and b.name == 'decode_symbol' and EG in b.defpath and b.dk == 'AssocFn']
+    keyA = 'R4/exp-golomb-longest-codeword/' + EG
+    keyB = 'R4/exp-golomb-reads-tail/' + EG
+    roleA = 'the reader accepts the longest run of leading zeros the writer emits (bits of the type)'
+    roleB = 'every accepting path reads as many bits behind the marker as it counted zeros'
+    if not enc or not dec:
+        ctx.unresolved('R4', roleA, EG, 'Exp-Golomb writer or reader not found', key=keyA)
+        return
+    ctx.touch(enc[0]); ctx.touch(dec[0])
+    _, ep = rules.evaluate(enc[0])
+    writer_max = False
+    for r in ep or []:
+        for e in r.events:
+            if e['kind'] == 'loop_enter':
+                for v in e['pre'].values():
+                    for x in sym.subterms(v):
+                        if isinstance(x, tuple) and x and x[0] == 'agg' and 'Range' in str(x[1]) and len(x[2]) == 2 and _is_bits_of_n(x[2][1]):
+                            writer_max = True
+    _, dp = rules.evaluate(dec[0])
+    if not dp:
+        ctx.unresolved('R4', roleA, dec[0].defpath, 'reader not evaluated', key=keyA)
+        return
+    oks = [r for r in dp if r.end == 'return' and r.ret is not None and rules.ret_shape(r.ret)[0] == 'Ok']
+    if not oks:
+        ctx.unresolved('R4', roleA, dec[0].defpath, 'no accepting path', key=keyA)
+        return
+    # the counter: the loop variable of the first loop that is compared with the number of bits
+    feasible = 0
+    unknown = None
+    counters = set()
+    for r in oks:
+        ok = True
+        for t, v, _ in r.preds:
+            if t[0] != 'bin' or t[1] not in ('Lt', 'Le', 'Gt', 'Ge', 'Eq', 'Ne'):
+                continue
+            a, b = t[2], t[3]
+            if _is_bits_of_n(a) and isinstance(b, tuple) and b and b[0] == 'loop':
+                op, L = t[1], b           # K op L
+            elif _is_bits_of_n(b) and isinstance(a, tuple) and a and a[0] == 'loop':
+                op, L = {'Lt': 'Gt', 'Le': 'Ge', 'Gt': 'Lt', 'Ge': 'Le'}.get(t[1], t[1]), a
+            elif (_is_bits_of_n(a) or _is_bits_of_n(b)):
+                unknown = 'comparison of the bit count with %s' % sym.show(b if _is_bits_of_n(a) else a)[:50]
+                continue
+            else:
+                continue
+            counters.add(L)
+            at_eq = op in ('Le', 'Ge', 'Eq')          # truth of `K op L` at L == K
+            if bool(v) != at_eq:
+                ok = False
+        if ok:
+            feasible += 1
+    if not writer_max:
+        ctx.unresolved('R4', roleA, enc[0].defpath, 'the writer\'s run of `bits of the type` zeros was not recognised', key=keyA)
+    elif unknown:
+        ctx.unresolved('R4', roleA, dec[0].defpath, unknown, key=keyA)
+    elif not counters:
+        ctx.unresolved('R4', roleA, dec[0].defpath, 'the reader does not compare its zero count with the number of bits', key=keyA)
+    elif not feasible:
+        ctx.bad('R4', roleA, dec[0].defpath, 'no accepting path is compatible with a run of exactly `bits of the type` leading zeros, which is what the writer emits for the maximum of the type: the largest symbol is written but cannot be read back', key=keyA, loc=rules.loc(dec[0]))
+    else:
+        ctx.ok('R4', roleA, dec[0].defpath, '%d of %d accepting path(s) admit count == bits of the type' % (feasible, len(oks)), key=keyA)
+    if len(counters) != 1:
+        ctx.unresolved('R4', roleB, dec[0].defpath, 'zero counter not identified', key=keyB)
+        return
+    L = next(iter(counters))
+    for r in oks:
+        reads_tail = False
+        for e in r.events:
+            if e['kind'] == 'loop_enter':
+                for v in e['pre'].values():
+                    for x in sym.subterms(v):
+                        if isinstance(x, tuple) and x and x[0] == 'agg' and 'Range' in str(x[1]) and len(x[2]) == 2 and x[2][1] == L and sym.is_int(x[2][0]) and x[2][0][1] == 0:
+                            reads_tail = True
+        zero_decided = any(t[0] == 'bin' and t[1] in ('Eq', 'Ne') and ((t[2] == L and sym.is_int(t[3]) and t[3][1] == 0) or (t[3] == L and sym.is_int(t[2]) and t[2][1] == 0)) and bool(v) == (t[1] == 'Eq') for t, v, _ in r.preds)
+        if not reads_tail and not zero_decided:
+            ctx.bad('R4', roleB, dec[0].defpath, 'an accepting path returns without the loop over 0..count that reads the bits behind the marker: the writer emits them for every symbol, so the reader stops in the middle of the code word and the next symbol is read from its tail', key=keyB, loc=rules.loc(dec[0]))
+            return
+    ctx.ok('R4', roleB, dec[0].defpath, '%d accepting path(s), each through the loop over 0..count' % len(oks), key=keyB)
+
+
 def run(ctx):
     F = ctx.F
     wq = ws = rs = rq = None
@@ -506,6 +608,7 @@ def run(ctx):
     check_len(ctx, F)
     check_marker(ctx, F)
     check_queue_exhaustion(ctx, F)
+    check_exp_golomb_agreement(ctx, F)
     c18.check_bit_coder_sentinel(ctx, F)
     c08.check_bit_guards(ctx, F)
     if ctx.tier == 'thorough':
